@@ -1072,10 +1072,13 @@ void SAXParser::doctypeDecl(const   DTDElementDecl&
 }
 
 
-void SAXParser::doctypePI(  const   XMLCh* const
-                            , const XMLCh* const)
+void SAXParser::doctypePI(  const   XMLCh* const    target
+                            , const XMLCh* const    data)
 {
-    // Unused by SAX DTDHandler interface at this time
+    // XML 1.0, 2.6: PIs must be passed through to the application,
+    // those of the DTD as well
+    if (fDocHandler)
+        fDocHandler->processingInstruction(target, data);
 }
 
 
